@@ -330,6 +330,7 @@ PROPS = {
     "C02": {"run": c02, "level": "exploration"},
     "C03": {"run": simple, "level": "exploration"},
     "C04": {"run": c04, "level": "exploration"},
+    "C05": {"run": simple, "level": "exploration"},
     "C06": {"run": simple, "level": "exploration"},
     "C07": {"run": simple, "level": "exploration"},
     "C08": {"run": simple, "level": "exploration"},
